@@ -848,7 +848,14 @@ func (r *Runner) crossCheck(header string, results []*ObResult) {
 			if rr.status == "unsat" {
 				res.Cross = second
 			} else if rr.status == "sat" {
-				res.Cross = second + ":DISAGREES"
+				// the old z3 has answered "sat" wrongly before (quantified and floating-point goals): a third
+				// solver breaks the tie; only two solvers saying "sat" against the primary count as a disagreement
+				third, _ := r.single(header, res, "cvc5", crossTimeout, false)
+				if third.status == "sat" {
+					res.Cross = second + "+cvc5:DISAGREES"
+				} else {
+					res.Cross = second + ":sat-unconfirmed(cvc5:" + third.status + ")"
+				}
 			}
 		}(res)
 	}
